@@ -146,31 +146,127 @@ class CFG:
         return (i, pol)
 
     # ---- reachability
-    def reach(self, starts, avoid=None, edge_ok=None, want_prev=False):
+    # ---- correlated branches: a small amount of path sensitivity, sound by construction (it only removes paths
+    # on which the same side-effect-free condition over unmodified locals would have to be both true and false)
+    def _tracked(self):
+        if hasattr(self, "_trk"):
+            return self._trk
+        fn = self.fn
+        N = fn.nodes
+        addr_taken = set()
+        for n in N:
+            if n["k"] == "UnaryOperator" and n["op"] == "&":
+                c = fn.strip(n["c"][0])
+                if N[c]["k"] == "DeclRefExpr" and N[c]["dk"] in ("local", "parm"):
+                    addr_taken.add(N[c]["d"])
+
+        def pure(i):
+            i = fn.strip(i)
+            n = N[i]
+            k = n["k"]
+            if k == "DeclRefExpr":
+                if n["dk"] in ("local", "parm"):
+                    return None if n["d"] in addr_taken else {n["d"]}
+                if n["dk"] == "enum":
+                    return set()
+                return None
+            if k in ("IntegerLiteral", "CharacterLiteral"):
+                return set()
+            if "cv" in n and k not in ("BinaryOperator", "UnaryOperator"):
+                return set()
+            if k == "UnaryOperator" and n["op"] == "&":
+                c = fn.strip(n["c"][0])
+                if N[c]["k"] == "DeclRefExpr" and N[c]["dk"] == "global":
+                    return set()
+                return None
+            if k == "UnaryOperator" and n["op"] in ("!", "-", "~"):
+                return pure(n["c"][0])
+            if k == "BinaryOperator" and n["op"] in ("==", "!=", "<", "<=", ">", ">=", "+", "-", "*", "&", "|"):
+                a, b = pure(n["c"][0]), pure(n["c"][1])
+                if a is None or b is None:
+                    return None
+                return a | b
+            return None
+        keys = {}
+        count = {}
+        for p, outs in self.edges.items():
+            for q, lab in outs:
+                f = self.fact(lab)
+                if f is None:
+                    continue
+                vs = pure(f[0])
+                if not vs:
+                    continue
+                key = fn.text(f[0])
+                keys[f[0]] = (key, frozenset(vs))
+                count.setdefault(key, set()).add(f[0])
+        self._trk = {e: kv for e, kv in keys.items() if len(count[kv[0]]) >= 2}
+        # definitions: element -> set of decl ids written
+        self._defs = {}
+        for n in N:
+            k = n["k"]
+            ds = set()
+            if k in ("BinaryOperator", "CompoundAssignOperator") and (n["op"] == "=" or k == "CompoundAssignOperator"):
+                c = fn.strip(n["c"][0])
+                if N[c]["k"] == "DeclRefExpr":
+                    ds.add(N[c]["d"])
+            elif k == "UnaryOperator" and n["op"] in ("post++", "post--", "pre++", "pre--"):
+                c = fn.strip(n["c"][0])
+                if N[c]["k"] == "DeclRefExpr":
+                    ds.add(N[c]["d"])
+            elif k == "DeclStmt":
+                ds.update(dd["d"] for dd in n["decls"])
+            if ds:
+                self._defs[n["i"]] = ds
+        return self._trk
+
+    def reach(self, starts, avoid=None, edge_ok=None, want_prev=False, init_facts=()):
         """points reachable from `starts` (each start is included) without executing an element for which
-        avoid(node) holds and only along edges for which edge_ok(label, src, dst) holds"""
+        avoid(node) holds and only along edges for which edge_ok(label, src, dst) holds. Paths that need a tracked
+        condition (see _tracked) to be both true and false are not followed."""
+        trk = self._tracked()
+        defs = self._defs
+        seen_pts = set()
         seen = set()
         prev = {}
         dq = deque()
+        f0 = frozenset(init_facts)
         for s in starts:
-            if s not in seen:
-                seen.add(s)
-                prev[s] = None
-                dq.append(s)
+            st = (s, f0)
+            if st not in seen:
+                seen.add(st)
+                if s not in seen_pts:
+                    seen_pts.add(s)
+                    prev[s] = None
+                dq.append(st)
         while dq:
-            p = dq.popleft()
+            p, facts = dq.popleft()
             e = self.elem_at(p)
             if e is not None and avoid is not None and avoid(e):
                 continue
+            if e is not None and facts and e in defs:
+                ds = defs[e]
+                facts = frozenset(x for x in facts if not (x[2] & ds))
             for q, lab in self.edges.get(p, []):
-                if q in seen:
-                    continue
                 if edge_ok is not None and not edge_ok(lab, p, q):
                     continue
-                seen.add(q)
-                prev[q] = p
-                dq.append(q)
-        return (seen, prev) if want_prev else seen
+                nf = facts
+                if lab is not None and trk:
+                    fa = self.fact(lab)
+                    if fa is not None and fa[0] in trk:
+                        key, vs = trk[fa[0]]
+                        if (key, not fa[1], vs) in facts:
+                            continue
+                        nf = facts | {(key, fa[1], vs)}
+                st = (q, nf)
+                if st in seen:
+                    continue
+                seen.add(st)
+                if q not in seen_pts:
+                    seen_pts.add(q)
+                    prev[q] = p
+                dq.append(st)
+        return (seen_pts, prev) if want_prev else seen_pts
 
     def witness(self, prev, goal):
         """list of distinct source lines along the BFS path ending at `goal`"""
